@@ -209,3 +209,19 @@ def midtransfer_family():
             st += [["release", s], ["deof", s], ["send", s, "PWD"]]
             fam.append(st)
     return fam
+
+
+def chaos(rng, ns=3):
+    """Several general sessions at once (same and different accounts, the same files), interleaved by the seeded scheduler with
+    backend calls held at random; sessions may be cut (closed, reset) anywhere, the server may be closed at the end."""
+    scr = {}
+    for s in range(1, ns + 1):
+        sc = rand_session(rng, s, steps=rng.choice([4, 7, 10]))
+        # (no clock steps inside concurrent scripts: ticks are added between scheduler rounds instead)
+        sc = [x for x in sc if x[0] != "tick"]
+        if rng.random() < 0.3:
+            k = rng.randrange(1, len(sc) + 1)
+            sc = sc[:k] + [rng.choice([["vanish", s], ["vanish", s, "reset"], ["vanish", s, "all"]])]
+        scr[str(s)] = sc
+    sch = {"concurrent": scr, "seed": rng.randrange(1 << 30), "gate_prob": rng.choice([0.0, 0.2, 0.5])}
+    return sch
